@@ -45,8 +45,9 @@ def concretise(case, rot):
     dly = DELAYS[rot % len(DELAYS)]
     hmap = {"a": a, "b": b, "bad": bad, "na": "n/a", "off": "(Def/Aaa, Offset)", "dly": dly,
             "on": ["(Def/Aaa, Onset)", "(Def/aaa, Onset, (Ellipse))"][rot % 2],
-            # (15 s also as 0.000015 megaseconds: prefix SYMBOLS are case-sensitive, `Ms` is not `ms`)
-            "doff": ["(Delay/15 s, Def/Aaa, Offset)", "(Delay/15000 ms, Offset, Def/AAA)", "(Delay/0.000015 Ms, Def/Aaa, Offset)"][rot % 3]}
+            # (15 s also in megaseconds: prefix SYMBOLS are case-sensitive, `Ms` is not `ms`; the schema declares the factor of M as 10e6,
+            #  i.e. 1e7 - observation O4 - so 15 s is 0.0000015 Ms by the schema's own table)
+            "doff": ["(Delay/15 s, Def/Aaa, Offset)", "(Delay/15000 ms, Offset, Def/AAA)", "(Delay/0.0000015 Ms, Def/Aaa, Offset)"][rot % 3]}
     sidecar = {"cat": {"HED": {"ka": a, "kb": b, "kbad": bad}}}
     cmap = {"a": "ka", "b": "kb", "bad": "kbad", "na": "n/a", "unk": "kzz"}
     rows = case["rows"]
